@@ -23,7 +23,8 @@ EXPLANATION = (
     "not the own id, and only an awaited reply marks a peer as having replied; value lookups yield only peers "
     "built by decode_tcp_peer_from_compact_address (port range and public IPv4 validated)."
 )
-TECHNIQUE = "static analysis: constant folding, guard dominance, must-pass-through on all paths, who-may-call, tainted-bound (TBOUND) check on re-arming guards"
+EXACTNESS = "Second pass (DESIGN.md §10, exactness / completeness halves) — what a storing node records, purges, serves and pages; `store` / `find_value` validators and effects; request dispatch to the four RPCs with their arguments; value-finder accumulation, next-page request and re-arming; node-finder yield and end marker; peer validator; reply / request / sent records written by their own reporter only."
+TECHNIQUE = "static analysis: constant folding, guard dominance, must-pass-through on all paths, who-may-call, tainted-bound (TBOUND) check on re-arming guards; exact fact-set comparison of the tests dominating each effect and refusal (effect / refusal tables), fall-through path queries"
 NOT_DECIDED = ("NOT APPLICABLE to static analysis: that a blob announced by any node is stored on the closest nodes and found by every other node's "
                "lookup, paging completeness for up to 100 announcers, and the numeric bound on RPC timeouts — properties of a network of "
                "interacting event loops under a schedule; only necessary conditions of expiry/termination/validity are decided")
